@@ -131,6 +131,34 @@ func c16KeyLength(c *Ctx, ix *Index) {
 		c.GuardedByAny(rule, fn, "len(key) <= MaxKeyLength", []string{`^builtin\.len\(`+keyOrNormalised+`\) <= ` + itoa(int(maxLen)) + `$`}, do, "a key that is too long for the depth type is rejected before the tree is touched: keys arrive unbounded in write logs from storage peers, and a wrapped bit length indexes out of range in doInsert")
 	}
 	c.WhoMayCall(ix, rule, "storage/mkvs.(*tree).doInsert", []string{"storage/mkvs.(*tree).Insert", "storage/mkvs.(*tree).doInsert"}, "insertions enter the tree only through Insert, which bounds the key length")
+	// the iterator: seek keys arrive from remote peers (SyncIterate, SyncGetPrefixes) and reach Key.AppendBit, which
+	// slices by the wrapped bit length (F36)
+	if fn := c.needFn(rule, "storage/mkvs.(*treeIterator).Seek"); fn != nil {
+		do := CallsTo(fn, "doNext", "storage/mkvs.(*treeIterator).doNext", "")
+		c.GuardedByAny(rule, fn, "len(key) <= MaxKeyLength", []string{`^builtin\.len\(`+keyOrNormalised+`\) <= ` + itoa(int(maxLen)) + `$`}, do, "a seek key that is too long for the depth type is rejected before the iterator descends: seek keys arrive from storage peers, and a wrapped bit length slices out of range in Key.AppendBit")
+	}
+	// doNext is entered with a caller-supplied key only through Seek (Next resumes with the iterator's own position)
+	c.WhoMayCall(ix, rule, "storage/mkvs.(*treeIterator).doNext", []string{"storage/mkvs.(*treeIterator).Seek", "storage/mkvs.(*treeIterator).Next", "storage/mkvs.(*treeIterator).doNext", "storage/mkvs.(*treeIterator).doNext$1"}, "the iterator descends only from Seek (bounded key) or Next (its own position)")
+
+	// remoteSync dereferences the pointer it is given: every caller has established that it is not nil (F37:
+	// PrefetchPrefixes on a locally emptied tree passed the nil pending root)
+	nRS := 0
+	for _, fn := range c.P.FuncsInPkg("storage/mkvs") {
+		for _, call := range findCalls(fn, "storage/mkvs.(*cache).remoteSync") {
+			nRS++
+			args := allArgs(call)
+			ptr := args[2]
+			ok := false
+			want := vstr(ptr) + " != nil"
+			for _, h := range heldCondVals(call) {
+				if normCond(h.Cond, h.Pol) == want {
+					ok = true
+				}
+			}
+			c.Check(ok, "C16.panic", fname(fn)+":remoteSync(ptr) only with ptr != nil", c.P.InstrPos(call), "the pointer handed to remoteSync was tested non-nil on every path ("+want+")", "remoteSync is called with a pointer that may be nil (it reads ptr.Hash): PrefetchPrefixes on a remote tree whose keys were all removed locally panics")
+		}
+	}
+	c.Floor("C16.panic", nRS, 2, "remoteSync call sites")
 }
 
 // wireIntIn: the 32/64-bit integer read from a byte slice (encoding/binary UintN call) that v is derived from by
